@@ -6,11 +6,17 @@ Correspondence: the Lean model `JF.Model.Periodic` (binary64 reading, component 
 `correct_separation(_entry)`, `separation_vector`, `next_image` and the error outcomes of the set-up.
 
 Oracle (evaluated on the implementation's outputs for every case, exact rational arithmetic):
-  position  y = f(x):  0 <= y < L;  x - y = k*L up to ONE rounding at magnitude L (|err| <= L*2^-53);  f(y) == y
+  position  y = f(x):  0 <= y < L (half-open, NO exception);  x - y = k*L up to ONE rounding at magnitude L
+                       (|err| <= L*2^-53);  f(y) == y bit for bit (NO exception)
   separation r = g(s): |r| <= L/2 (closed, as the statement says);  r - s = k*L up to the roundings of the three
                        float operations involved (|err| <= 2^-52*(|s|+L), plus 2^-53*|b-a| for `separation_vector`)
   cubic == cuboid (bitwise) when all lengths are equal, both for the cuboid module as initialised by
   `HypercubicSetting` and for a fresh `HypercuboidSetting([L]*d)`.
+
+History: up to /repo commit "fix: correct_position_entry returned the system length itself for tiny negative entries" the
+position correction was the bare `x % L`, which returns L for -ulp(L)/4 <= x < 0 (known finding
+`correct_position:tiny-negative-returns-L`, now status "fixed" in known_findings/C15.json).  The oracle no longer excuses it:
+the former witnesses stay in the corpus as regression inputs and the old behaviour is reported under that signature.
 """
 import math
 from fractions import Fraction as Fr
@@ -31,7 +37,8 @@ TRUSTED = [
     "ffmodK is validated against math.fmod in this run",
 ]
 
-KNOWN_SIG = "correct_position:tiny-negative-returns-L"
+# signature of the former known finding (status "fixed"): emitted again only if the repair regresses
+FIXED_SIG = "correct_position:tiny-negative-returns-L"
 INF = math.inf
 
 
@@ -236,13 +243,14 @@ class Impl:
 class Oracle:
     def __init__(self, ctx):
         self.ctx = ctx
-        self.known_emitted = 0
+        self.regressed = 0
 
-    def known(self, case, what):
-        self.ctx.count("known:" + KNOWN_SIG)
-        if self.known_emitted < 12:         # keep the framework's failure list free for anything new
-            self.known_emitted += 1
-            self.ctx.fail(KNOWN_SIG, case, what)
+    def regression(self, case, what):
+        """the repaired defect is back: a plain property violation (the finding is no longer listed as known)"""
+        self.ctx.count("regression:" + FIXED_SIG)
+        if self.regressed < 12:             # keep the framework's failure list free for anything else
+            self.regressed += 1
+            self.ctx.fail(FIXED_SIG, case, what)
 
     def position(self, case, x, y, L, again):
         """y = correct_position_entry(x); again(y) re-applies the function"""
@@ -256,16 +264,20 @@ class Oracle:
         yy = again(y)
         if not in_range:
             if y == L and x < 0 and -x < math.ulp(L):
-                self.known(case, f"correct_position_entry({x!r}) == L == {L!r} (not in [0, L)); applying it again gives {yy!r}")
-                ctx.cls(("pos", "known-returns-L", L == 2.0 ** math.frexp(L)[1] / 2))
-                return
-            ctx.fail("correct_position:out-of-range", case, f"result {y!r} not in [0, {L!r})")
+                self.regression(case, f"correct_position_entry({x!r}) == L == {L!r} (not in [0, L)); applying it again gives {yy!r}")
+            else:
+                ctx.fail("correct_position:out-of-range", case, f"result {y!r} not in [0, {L!r})")
         if yy is None or f2b(yy) != f2b(y):
-            ctx.fail("correct_position:not-idempotent", case, f"f(x) = {y!r} but f(f(x)) = {yy!r}")
+            if self.regressed == 0 or in_range:
+                ctx.fail("correct_position:not-idempotent", case, f"f(x) = {y!r} but f(f(x)) = {yy!r}")
+            else:
+                ctx.count("regression:not-idempotent-at-L")
         # case class: which branch of CPython's float_rem, was the +L inexact, how far away
         m = math.fmod(x, L)
         far = 0 if x == 0 else max(-60, min(80, math.frexp(abs(x) / L)[1])) // 10
-        br = "zero" if m == 0 else ("pos" if m > 0 else ("neg-exact" if Fr(m) + FL == Fy else "neg-rounded"))
+        # "neg-to-zero": fmod(x, L) + L rounds to L and the `!= L` branch of the repaired function returns 0.0
+        br = "zero" if m == 0 else ("pos" if m > 0 else ("neg-exact" if Fr(m) + FL == Fy else
+                                                         ("neg-to-zero" if m + L == L and y == 0.0 else "neg-rounded")))
         ctx.cls(("pos", br, far, k == 0))
 
     def separation(self, case, s_exact, s_abs, r, L, extra_tol=Fr(0), tag="sep"):
@@ -356,11 +368,12 @@ def judge(orc, ctx, view, pb, dim, Ls, fn, args, reply, res):
 
 # --------------------------------------------------------------------------------------------------------------- run
 CORPUS = [
-    # (kind, dim, Ls, fn, args)   -- the witness of the known finding first
+    # (kind, dim, Ls, fn, args)   -- first the witnesses of the former finding `correct_position:tiny-negative-returns-L`
+    # (regression inputs: the bare `x % L` returns L on them, the repaired function 0.0)
     ("cubic", 3, [1.0], "pos_entry", (-1e-17, 0)),
     ("cuboid", 3, [1.0, 2.0, 3.0], "pos", ([-1e-17, -1e-17, -1e-16],)),
     ("cubic", 3, [1.0], "pos", ([-1e-17, 1.0, -5e-324],)),
-    ("cubic", 2, [1.0], "pos_entry", (-2.0 ** -54, 1)),       # the tie L - ulp/4: rounds to even = L
+    ("cubic", 2, [1.0], "pos_entry", (-2.0 ** -54, 1)),       # the tie L - ulp/4: the modulo rounds to even = L -> 0.0
     ("cubic", 2, [1.0], "pos_entry", (nxt(-2.0 ** -54, 1), 1)),
     ("cubic", 2, [1.0], "pos_entry", (nxt(-2.0 ** -54, -1), 1)),  # just beyond the tie: stays below L
     ("cubic", 2, [3.0], "pos_entry", (-2.0 ** -52, 1)),       # non power of two: tie at ulp/2
@@ -472,13 +485,33 @@ def run(ctx):
                              f"cubic {ref} vs cuboid {r}")
             ctx.count("agreement-checks")
 
-    # --- corpus (witness of the known finding first)
+    # --- corpus (regression inputs of the former finding first)
     for kind, dim, Ls, fn, args in CORPUS:
         ops = [(fn, args, "corpus")]
         a = evaluate(kind, dim, Ls, ops)
         if kind == "cubic":
             b = evaluate("cuboid", dim, [Ls[0]] * dim, ops)
             agreement(dim, Ls[0], ops, a, b)
+
+    # --- non-finite entries (OUTSIDE the property's quantifier: no oracle, and a difference is only noted, it does not affect the
+    #     verdict): the repaired function tests `corrected_entry != L`, so nan (from nan/inf inputs) passes through, in the code and
+    #     in the model; a `<` test would return 0.0 here
+    nf_lines, nf_impl = [], []
+    for kind, dim, Ls in (("cubic", 2, [1.0]), ("cuboid", 2, [1.0, 3.0])):
+        if impl.init(kind, dim, Ls) is None:
+            for view, pb in impl.views(kind):
+                for x in (math.nan, -math.nan, INF, -INF):
+                    for i in range(dim):
+                        nf_lines.append(line_for(view, dim, Ls, "pos_entry", (x, i)))
+                        nf_impl.append(pb.correct_position_entry(x, i))
+            impl.setting.reset()
+    for line, y, rl in zip(nf_lines, nf_impl, ctx.model("pbc", nf_lines)):
+        ym = b2f(rl) if rl.isdigit() else None
+        if ym is None or math.isnan(y) != math.isnan(ym) or (not math.isnan(y) and f2b(y) != rl):
+            ctx.count("non-finite:model-differs")
+            if ctx.hist["non-finite:model-differs"] <= 3:
+                ctx.notes.append(f"non-finite position entry (outside the quantifier): implementation {y!r}, model {rl} on `{line}`")
+        ctx.count("input:non-finite"); ctx.cls(("pos-nonfinite", math.isnan(y)))
 
     # --- set-ups the real code rejects: error outcome must be the same
     for kind, dim, Ls in BAD_SETUPS:
@@ -505,8 +538,8 @@ def run(ctx):
             agreement(dim, Ls[0], ops, a, b)
 
     flush()
-    if orc.known_emitted == 0:
-        ctx.notes.append("the known finding's witness did not reproduce in this run (repaired in the tree under test?)")
+    if orc.regressed:
+        ctx.notes.append("REGRESSION of the repaired finding " + FIXED_SIG + ": correct_position_entry returns L again")
 
 
 def replay(ctx, case):
